@@ -45,12 +45,14 @@ package fourier
 //@ requires t != nil && len(t.work) >= 2*len(t.real) && len(t.real) >= 1
 //@ valid len(seq) == len(t.real) && (dst == nil || len(dst) == len(t.real)/2+1)
 //@ panics iff !valid
+//@ writes t.real[*] ; t.work[*] ; dst[*]
 //@ ensures len(result) == len(t.real)/2+1
 
 //@ func FFT.Sequence props: C17 C07(safety)
 //@ requires t != nil && len(t.work) >= 2*len(t.real) && len(t.real) >= 1
 //@ valid len(coeff) == len(t.real)/2+1 && (dst == nil || len(dst) == len(t.real))
 //@ panics iff !valid
+//@ writes t.real[*] ; t.work[*] ; dst[*]
 //@ ensures len(result) == len(t.real)
 
 // A transform object is (re)sized by Reset alone: whatever lengths it was used or Reset with
@@ -66,6 +68,7 @@ package fourier
 //@ func FFT.Reset props: C17 C07(safety)
 //@ requires t != nil && n >= 1 && cap(t.work) == 2*cap(t.real)
 //@ modifies t
+//@ writes t.work[k] for k in 0..cap(t.work) ; t.real[k] for k in 0..cap(t.real)
 //@ ensures len(t.real) == n && len(t.work) == 2*n && cap(t.work) == 2*cap(t.real)
 
 //@ func CmplxFFT.Len props: C17
@@ -75,6 +78,7 @@ package fourier
 //@ func CmplxFFT.Reset props: C17 C07(safety)
 //@ requires t != nil && n >= 1 && cap(t.work) == 2*cap(t.real)
 //@ modifies t
+//@ writes t.work[k] for k in 0..cap(t.work) ; t.real[k] for k in 0..cap(t.real)
 //@ ensures len(t.work) == 4*n && len(t.real) == 2*n && cap(t.work) == 2*cap(t.real)
 
 //@ func DCT.Len QuarterWaveFFT.Len props: C17
@@ -86,11 +90,13 @@ package fourier
 //@ valid n >= 2
 //@ panics iff !valid, before-writes
 //@ modifies t
+//@ writes t.work[k] for k in 0..cap(t.work)
 //@ ensures len(t.work) == 3*n
 
 //@ func QuarterWaveFFT.Reset props: C17 C07(safety)
 //@ requires t != nil && n >= 1
 //@ modifies t
+//@ writes t.work[k] for k in 0..cap(t.work)
 //@ ensures len(t.work) == 3*n
 
 //@ func DST.Len props: C17
@@ -100,6 +106,7 @@ package fourier
 //@ func DST.Reset props: C17 C07(safety)
 //@ requires t != nil && n >= 1
 //@ modifies t
+//@ writes t.work[k] for k in 0..cap(t.work)
 //@ ensures len(t.work) == 5*(n+1)/2 && (2*len(t.work)+1)/5 - 1 == n
 
 // ShiftIdx and UnshiftIdx are mutually inverse bijections of [0, n) for every n.
